@@ -75,6 +75,18 @@ def showContract (env : Env) (net : Network) : ParseOut → String
       ++ " address=" ++ (match contractAddress env net i with
         | .ok (some s) => s | .ok none => "None" | .error e => "err:" ++ e.tag)
 
+def parseFlag? : String → Option (Option Bool)
+  | "c" => some (some true) | "u" => some (some false) | "d" => some none | _ => none
+
+def parseKeyStep? (s : String) : Option KeyStep :=
+  match s.splitOn ":" with
+  | ["public_copy"] => some .publicCopy
+  | ["hash160", f] => (parseFlag? f).map .hash160
+  | ["fingerprint", f] => (parseFlag? f).map .fingerprint
+  | ["address", f] => (parseFlag? f).map .address
+  | ["sec", f] => (parseFlag? f).map .sec
+  | _ => none
+
 def handle : Handler := fun op args =>
   match op, args with
   | "c08addr", [net, script] => do
@@ -114,6 +126,21 @@ def handle : Handler := fun op args =>
     | "bip49" => some (showAddr (bip49Address realEnv net sec))
     | "bip84" => some (showAddr (bip84Address realEnv net sec))
     | _ => none
+  | "c08keyseq", [net, kind, _se, prv, flag, secC, secU, steps] => do
+    -- a key object's history: `_se` tells the implementation side which key to make; the model needs only the two SECs
+    let net ← findNet net
+    let kind ← match kind with
+      | "key" => some KeyKind.key | "bip32" => some .bip32 | "bip49" => some .bip49 | "bip84" => some .bip84 | _ => none
+    let secC ← parseHex? secC
+    let secU ← parseHex? secU
+    let steps ← parseList? parseKeyStep? steps
+    let outs := keyRun realEnv net kind secC secU (freshKey (prv = "1") (flag = "1")) steps
+    some ("ok " ++ ";".intercalate (outs.map fun
+      | .bytes b => hx b
+      | .addr (.ok (some a)) => a
+      | .addr (.ok none) => "None"
+      | .addr (.error e) => "err:" ++ e.tag
+      | .unit => "-"))
   | "c08compile", [text] => do
     some (showBytesR (compileText (← parseText? text)))
   | _, _ => none
